@@ -79,6 +79,7 @@ type recorder struct {
 	handedB   map[int][]byte
 
 	injects  []inject
+	faulted  map[int]string // cid -> fatal fault injected on its behalf
 	counters map[string]int
 	injected []string
 	shutdown bool
@@ -86,7 +87,7 @@ type recorder struct {
 
 func newRecorder() *recorder {
 	r := &recorder{fdCid: map[int]int{}, owned: map[int]string{}, delivered: map[int][]byte{},
-		handed: map[int]int{}, handedB: map[int][]byte{}, counters: map[string]int{}, canaries: map[int]*net.UDPConn{},
+		handed: map[int]int{}, handedB: map[int][]byte{}, faulted: map[int]string{}, counters: map[string]int{}, canaries: map[int]*net.UDPConn{},
 		loopEpfd: -1, loopEfd: -1, accEpfd: -1}
 	r.cond = sync.NewCond(&r.mu)
 	return r
@@ -242,6 +243,7 @@ func (r *recorder) Before(c *vunix.Call) {
 			r.idle = true
 			r.cond.Broadcast()
 		}
+		r.maybeInject(c, "wait")
 		return
 	case "read":
 		if c.Fd == r.loopEfd {
@@ -318,9 +320,27 @@ func (r *recorder) maybeInject(c *vunix.Call, name string) {
 			r.injected = append(r.injected, fmt.Sprintf("%s#%d short %d", name, k, in.limit))
 			return
 		}
-		c.Skip = true
-		c.Ret = -1
-		c.Err = errnoOf(in.kind)
+		fd := c.Fd
+		if c.Name == "epoll_ctl" {
+			fd = c.Arg2
+		}
+		if name == "close" {
+			c.Post = errnoOf(in.kind) // close(2) releases the descriptor even when it reports an error
+		} else {
+			c.Skip = true
+			c.Ret = -1
+			c.Err = errnoOf(in.kind)
+		}
+		transient := in.kind == "eagain" || in.kind == "eintr"
+		if !transient {
+			if cid, ok := r.fdCid[fd]; ok {
+				r.faulted[cid] = name + ":" + in.kind
+			}
+			if name == "read" || name == "wr" || name == "epctl-mod" || name == "epctl-add" {
+				// coherent fault: a socket that reports a fatal error is dead for the kernel too
+				_ = unix.Shutdown(fd, unix.SHUT_RDWR)
+			}
+		}
 		r.injected = append(r.injected, fmt.Sprintf("%s#%d %s", name, k, in.kind))
 		return
 	}
